@@ -98,7 +98,7 @@ fn kind_name(k: Watcher) -> String {
 impl FakeWatcher {
 	fn call(&self, path: &Path, unwatch: bool, recursive: bool) -> notify::Result<()> {
 		let name = path.display().to_string();
-		let (failed, multi, cb) = {
+		let (failed, multi, other_only, cb) = {
 			let mut r = self.rec.lock().unwrap();
 			let n = {
 				let e = r.attempts.entry((name.clone(), unwatch)).or_default();
@@ -107,7 +107,12 @@ impl FakeWatcher {
 				n
 			};
 			let failed = r.fail.iter().any(|(p, u, idx)| name.ends_with(p.as_str()) && *u == unwatch && idx.contains(&n));
-			if failed {
+			let other_only = (name.len() + n) % 3 == 1;
+			if failed && other_only {
+				// a failure that names one path, but not the watched one as it was given (what a back end does that
+				// reports the entry below the root it could not read): still one runtime error, naming that path
+				r.injected.push((format!("{name}/.verif-only"), unwatch));
+			} else if failed {
 				r.injected.push((name.clone(), unwatch));
 				if (name.len() + n) % 3 == 0 {
 					// a failure that names several paths (the watched one and two below it): one runtime error each
@@ -132,7 +137,7 @@ impl FakeWatcher {
 			r.calls_since_arm += 1;
 			let c = r.calls_since_arm;
 			let pos = r.armed.iter().position(|(n, _)| *n <= c);
-			(failed, multi, pos.map(|p| r.armed.remove(p).1))
+			(failed, multi && !other_only, failed && other_only, pos.map(|p| r.armed.remove(p).1))
 		};
 		// a config change issued at exactly this point of the worker's read-apply-wait cycle
 		if let Some(cb) = cb {
@@ -156,6 +161,9 @@ impl FakeWatcher {
 		if failed {
 			// notify errors come with or without the path they are about; either way one runtime error naming the path
 			let e = notify::Error::generic("verif: injected watcher failure");
+			if other_only {
+				return Err(e.add_path(path.join(".verif-only")));
+			}
 			if multi {
 				return Err(e.add_path(path.to_path_buf()).add_path(path.join(".verif-also-1")).add_path(path.join(".verif-also-2")));
 			}
